@@ -261,7 +261,13 @@ func TestC14(t *testing.T) {
 		elems, attrs, _ := docNames(doc)
 		g := &xast.G{T: t, Env: xast.GenEnv{ElemNames: queryable(elems), AttrNames: queryable(attrs), Prefixes: []string{"x", "y"}, NumVars: []string{"n"}, StrVars: []string{"s"}, NodeVars: []string{"v"}, NoLang: true}}
 		c := &c14Case{Events: ev, Threads: rapid.IntRange(2, 16).Draw(t, "threads"), Rounds: rapid.IntRange(1, 4).Draw(t, "rounds"), Cold: rapid.Bool().Draw(t, "cold")}
-		fixed := []string{"$v | //a", "//a | $v", "$v | $v", "$v | /nope", "($v | //b)[1]", "$v/..", "$v[last()]", "count($v | //b)", "//*/ancestor::*", "//@*/..", "$v//text()", "//a[position() = last()]", "sum(//a) + count($v)"}
+		fixed := []string{"$v | //a", "//a | $v", "$v | $v", "$v | /nope", "($v | //b)[1]", "$v/..", "$v[last()]", "count($v | //b)", "//*/ancestor::*", "//@*/..", "$v//text()", "//a[position() = last()]", "sum(//a) + count($v)",
+			// every builtin at least twice with different arguments (shared scratch state in one builtin races only there)
+			"translate(string(//a), 'ab1', 'xyz')", "translate(string(//b), '12a', 'ba')", "translate('abcabc', 'abc', 'xyz')", "translate('abcabc', 'cba', '12')",
+			"substring(string(/), 2, 3)", "substring('abcdef', 3)", "substring-before('a-b-c', '-')", "substring-after(string(//a), '1')", "normalize-space(' a  b ')", "normalize-space(string(/))",
+			"concat('a', 'b', string(//a))", "concat(name(/*), '-', local-name(//b))", "string-length(string(/))", "string-length('é€')", "contains(string(/), '1')", "starts-with('abc', 'ab')",
+			"round(1.5) + floor(2.7) + ceiling(0.2)", "sum(//b) div count(//*)", "number(' 12 ') mod 5", "boolean(//a) and not(//nosuch)", "lang('en')", "namespace-uri(/*)", "name(//@*)",
+			"string(//a[last()])", "count(//*[position() mod 2 = 1])", "local-name(//namespace::node()[1])", "string(1 div 3)", "string(123456789012)"}
 		for i, n := 0, rapid.IntRange(2, 6).Draw(t, "nExprs"); i < n; i++ {
 			if rapid.IntRange(0, 2).Draw(t, "fixedExpr") != 0 {
 				c.Exprs = append(c.Exprs, fixed[rapid.IntRange(0, len(fixed)-1).Draw(t, "fixed")])
@@ -315,6 +321,16 @@ func TestC14(t *testing.T) {
 			ext := map[string]string{"xml": ".xml", "json": ".json", "html": ".html"}[kind]
 			c.Files = append(c.Files, cliFile{Kind: "file", Path: fmt.Sprintf("%sf%03d%s", []string{"", "d/", "d/e/"}[rapid.IntRange(0, 2).Draw(t, "dir")], i, ext),
 				Data: genCLIFileData(t, kind, rapid.IntRange(0, 9).Draw(t, "bad") == 0)})
+		}
+		// a few files whose output block is far longer than any I/O buffer
+		for i, n := 0, rapid.IntRange(2, 5).Draw(t, "bigFiles"); i < n; i++ {
+			var sb strings.Builder
+			sb.WriteString("<big>")
+			for k, m := 0, rapid.IntRange(300, 900).Draw(t, "bigNodes"); k < m; k++ {
+				fmt.Fprintf(&sb, "<a n=\"%d\">value %d of file %d</a>", k, k, i)
+			}
+			sb.WriteString("</big>")
+			c.Files = append(c.Files, cliFile{Kind: "file", Path: fmt.Sprintf("big/b%02d.xml", i), Data: []byte(sb.String())})
 		}
 		c.Expr = []string{"//*", "//text()", "//a", "//node()", "//*[text()]", "count(//*)"}[rapid.IntRange(0, 5).Draw(t, "expr")]
 		st.Class(fmt.Sprintf("cli -c %d", c.N))
